@@ -52,10 +52,15 @@ Theorem C02_acyclic_runs_clean : forall md S rk,
 Proof. exact acyclic_clean. Qed.
 Print Assumptions C02_acyclic_runs_clean.
 
-(* Dynamic form (no acyclicity witness needed): whenever the run of the model on a core document fires no
-   loss-relevant branch, fidelity holds. *)
+(* Dynamic form (no acyclicity witness needed), on the WIDER fragment [inl_spec]: the properties of a top-level object
+   schema may also be inline objects (of core properties), which the parser promotes to the schema <Parent><Prop>;
+   the guard contains the executable negation of name capture (all names of the name table [nt] - declared schemas and
+   promoted inline objects - are distinct and no property key is one of them) and "every $ref is declared".  Whenever
+   the run of the model fires no loss-relevant branch, every declared schema has exactly its declared fields, where an
+   inline object property denotes the reference to its promoted schema (ty_of_prop).
+   NOT proved for this wider fragment: the static part (acyclic => the run is clean), see the manifest. *)
 Theorem C02_partial_clean_runs : forall md S,
-  core_spec S = true ->
+  inl_spec S = true ->
   let s := parse_doc md S in
   events s = [] -> oof s = false -> all_present S s = true ->
   forall n, In n (map fst S) -> faithful S s n.
@@ -65,7 +70,7 @@ Print Assumptions C02_partial_clean_runs.
 (* The only ways a schema of the core fragment loses fidelity are the logged branches (cycle placeholder stored /
    returned, depth placeholder, early return of an existing or placeholder schema, overwrite, dangling $ref). *)
 Theorem C02_loss_only_by_events : forall md S,
-  core_spec S = true ->
+  inl_spec S = true ->
   let s := parse_doc md S in
   oof s = false -> all_present S s = true ->
   forall n, In n (map fst S) -> ~ faithful S s n -> events s <> [].
@@ -80,6 +85,26 @@ Theorem C02_guard_nonvacuous :
      = Some [(sident, true, TPrim PInteger); (skind, false, TRef sKind); (stag, true, TRef sTag); (snames, false, TList (TPrim PString))].
 Proof. exact (conj static_guard_nonvacuous guard_nonvacuous). Qed.
 Print Assumptions C02_guard_nonvacuous.
+
+(* Non-vacuity of the wider guard: a document with an inline object property meets inl_spec (not core_spec), its run
+   is clean, and the property denotes the promoted schema UserGroup, which carries the inline object's fields. *)
+Theorem C02_inl_guard_nonvacuous :
+  inl_spec spec_inl = true /\ core_spec spec_inl = false
+  /\ events (parse_doc default_max_depth spec_inl) = [] /\ oof (parse_doc default_max_depth spec_inl) = false
+  /\ all_present spec_inl (parse_doc default_max_depth spec_inl) = true
+  /\ faithful_b spec_inl (parse_doc default_max_depth spec_inl) sUser = true
+  /\ model_fields (parse_doc default_max_depth spec_inl) sUser
+     = Some [(sgroup, true, TRef sUserGroup); (sname, false, TPrim PString)]
+  /\ model_fields (parse_doc default_max_depth spec_inl) sUserGroup
+     = Some [(sxx, true, TPrim PString); (sowner, false, TRef sAccount)].
+Proof. exact inl_guard_nonvacuous. Qed.
+Print Assumptions C02_inl_guard_nonvacuous.
+
+(* core_spec with declared references is an instance of inl_spec *)
+Theorem C02_core_is_inl : forall S,
+  core_spec S = true -> (forall n nd, In (n, nd) S -> forall m, In m (refs nd) -> In m (map fst S)) -> inl_spec S = true.
+Proof. exact core_inl. Qed.
+Print Assumptions C02_core_is_inl.
 
 (* Non-vacuity of the widened fragment (top-level map, top-level oneOf/anyOf, allOf with a primitive member). *)
 Theorem C02_wide_guard_nonvacuous :
